@@ -902,8 +902,8 @@ class TemplateModel(object):
         if not self.sparse_templates:
             return
         if channel_ids is not None:
-            # The requested channels may be given as a list.
-            channel_ids = np.asarray(channel_ids)
+            # The requested channels may be given as a list (integer indices, also when empty).
+            channel_ids = np.asarray(channel_ids, dtype=np.int64)
         template_w = self.sparse_templates.data[template_id, ...]
         template = self._unwhiten(template_w).astype(np.float32) if unwhiten else template_w
         assert template.ndim == 2
